@@ -1,5 +1,6 @@
 """Thorough tier: validate the checker itself on scratch copies of /repo (never on /repo):
  * must fire  - every seeded defect of this property (seeded/<name>/patch.diff) must be reported;
+ * must fire  - every hand-written mutant of one rule instance (selftest/mutants/<ID>/*.diff) must be reported;
  * must stay silent - every behaviour-preserving refactoring (selftest/equivalents/<ID>/*.diff and
    those registered for 'all') must produce no violation.
 Scratch copies live under a fresh temp dir and are removed before returning."""
@@ -43,6 +44,16 @@ def run(prop):
             else:
                 rc, viol = r
                 res.append({"kind": "must-fire", "name": name, "ok": rc == 1 and bool(viol), "detail": "exit %d, reported: %s" % (rc, viol[:4])})
+        mdir = os.path.join(VERIF, "selftest", "mutants", prop)
+        for fn in sorted(os.listdir(mdir)) if os.path.isdir(mdir) else []:
+            if not fn.endswith(".diff"):
+                continue
+            r, err = _run_on_patch(prop, os.path.join(mdir, fn), scratch)
+            if err:
+                res.append({"kind": "must-fire", "name": "mutants/" + fn, "ok": None, "detail": "skipped: " + err})
+            else:
+                rc, viol = r
+                res.append({"kind": "must-fire", "name": "mutants/" + fn, "ok": rc == 1 and bool(viol), "detail": "exit %d, reported: %s" % (rc, viol[:4])})
         edir = os.path.join(VERIF, "selftest", "equivalents")
         for sub in (prop, "all"):
             d = os.path.join(edir, sub)
